@@ -231,6 +231,41 @@ theorem sessOp_write_kv (cfg : Cfg) (n : Node) (sid : Nat) (mode : Mode) (op : O
       | some f => exact main f f rfl hg
   | _ => simp [isWriteOp] at hw
 
+/-- **SetVIDVerificationStatement** over a session of fabric `mode.fab`: acknowledged with success while
+the record carries no staged change of an armed fail-safe (no NOC command, no deferred write) - the
+store is the store before with the record the node holds for the fabric put into it; otherwise
+(answered with an error, or riding along with the staged changes) the store is exactly as it was. -/
+theorem sessOp_vvs_kv (cfg : Cfg) (n : Node) (sid s : Nat) (mode : Mode) :
+    ((sessOp cfg n sid mode (.vvs s)).2 = .ok ∧ pendingFor n mode.fab = false →
+      ∃ f', f'.idx = mode.fab ∧ (sessOp cfg n sid mode (.vvs s)).1.kv = n.kv.putFabric f' ∧
+        getFabric (sessOp cfg n sid mode (.vvs s)).1 mode.fab = some f') ∧
+    (¬ ((sessOp cfg n sid mode (.vvs s)).2 = .ok ∧ pendingFor n mode.fab = false) →
+      (sessOp cfg n sid mode (.vvs s)).1.kv = n.kv) := by
+  simp only [sessOp]
+  split
+  · exact ⟨fun h => by simp at h, fun _ => rfl⟩
+  · cases hg : getFabric n mode.fab with
+    | none => exact ⟨fun h => by simp at h, fun _ => rfl⟩
+    | some f =>
+      have hfi := getFabric_idx hg
+      simp only [hfi]
+      by_cases hp : pendingFor n mode.fab = true
+      · simp only [hp, if_true, ok]
+        exact ⟨fun h => by simp at h, fun _ => by first | rfl | trivial⟩
+      · have hp' : pendingFor n mode.fab = false := by simpa using hp
+        simp only [hp', Bool.false_eq_true, if_false]
+        have ⟨hfr, hst⟩ := storeFabric_spec n f
+        rcases hr : storeFabric n f with ⟨n2, b⟩
+        rw [hr] at hfr hst
+        simp only at hfr hst
+        rcases hst with ⟨hb, hkv, _⟩ | ⟨hb, hkv, _⟩
+        · subst hb
+          simp only [ok]
+          refine ⟨fun _ => ⟨f, hfi, hkv, ?_⟩, fun h => absurd ⟨by first | rfl | trivial, by first | rfl | trivial⟩ h⟩
+          simp only [getFabric, hfr.fabrics]; exact hg
+        · subst hb
+          exact ⟨fun h => by simp at h, fun _ => hkv⟩
+
 /-- what a fabric-scoped write does to the record of its fabric -/
 def applyWrite (op : Op) (f : Fabric) : Fabric :=
   match op with
@@ -475,6 +510,9 @@ record / networks the node shows afterwards enter:
   answered with success while no fail-safe is armed for `i` (when the command runs, i.e. after the
   expiry check of its prologue) commits the record the node now holds for `i` (the implementation
   stores whole fabric records: what the acknowledgement confirms is the record);
+* a SetVIDVerificationStatement answered with success commits the record of its fabric as well - unless
+  that record carries staged changes of the armed fail-safe (a NOC command, a deferred write): then it
+  rides along with them and commits nothing;
 * a CommissioningComplete answered with success commits the record of its fabric and the networks;
 * a RemoveFabric answered with success removes the record;
 * `crash k` restarts from an earlier store: what comes up is the committed state from there on (the
@@ -488,6 +526,11 @@ def commitStep (cfg : Cfg) (n : Node) (C : View) (op : Op) : View :=
     match cmdMode cfg n s with
     | some mode =>
       if r.2 = .ok ∧ armedFor (proOf cfg n s) mode.fab = false then C.putOpt (getFabric r.1 mode.fab) else C
+    | none => C
+  | .vvs s =>
+    match cmdMode cfg n s with
+    | some mode =>
+      if r.2 = .ok ∧ pendingFor (proOf cfg n s) mode.fab = false then C.putOpt (getFabric r.1 mode.fab) else C
     | none => C
   | .complete s =>
     match cmdMode cfg n s with
@@ -661,6 +704,20 @@ theorem step_commit (cfg : Cfg) (n : Node) (C : View) (op : Op) (h : View.Same (
           have hsid : sid = s := by simpa [isSessOp] using hso.symm
           subst hsid
           have hk := sessOp_write_kv cfg (proOf cfg n sid) sid s1.mode (.fwrite sid) rfl
+          unfold commitStep
+          rw [he]
+          simp only [hmode]
+          split
+          · rename_i hcond
+            obtain ⟨f', _, hkv, hgf⟩ := hk.1 hcond
+            rw [hgf, hkv]
+            exact View.same_put f' hpro
+          · rename_i hcond
+            rw [hk.2 hcond]; exact hpro
+        | vvs s =>
+          have hsid : sid = s := by simpa [isSessOp] using hso.symm
+          subst hsid
+          have hk := sessOp_vvs_kv cfg (proOf cfg n sid) sid sid s1.mode
           unfold commitStep
           rw [he]
           simp only [hmode]
